@@ -6,7 +6,7 @@ FILES = ["Engine/Toposort.v", "Engine/ToposortProof.v", "Engine/Tagged.v", "Engi
 RULE = ("(a) random nested programs in which half of the differentiated bodies do not mention their own variable and "
         "sign() (registered non-differentiable) occurs; plus implementation-only oracle cases with container "
         "arguments and the exported piecewise-constant functions; distinct by program text; non-trivial when a "
-        "differential operator is applied to an independent or sign-dependent body; (b) the fourteen proved piecewise-constant "
+        "differential operator is applied to an independent or sign-dependent body; (b) the twenty-two proved piecewise-constant "
         "members at floats read as dyadic rationals (integers, half-integers, 2^-45 next to a jump, 2^70, 1e-300, comparisons "
         "at equality), value under tracing and gradient of x*f(x) in both modes, evaluated against the integer model in Coq")
 TRUST = ["translator harness/translators/nograd.py (the literal list nograd_functions and its two registration loops; the dependence test of tracer.trace and the zero answers of core.make_vjp / make_jvp)", "floats are the dyadic rationals float.as_integer_ratio() reports",
@@ -60,5 +60,5 @@ def run(res, tier, seed, broken):
 replay = __import__("harness.props.c08", fromlist=["replay"]).replay
 TECHNIQUE = "Coq theorems (non-differentiable primitives return plain values at any nesting; over the reals, the registered floor/ceil/trunc/rint/round/sign/comparisons are locally constant away from their jumps, so blocking the flow is the derivative and x*floor(x) differentiates to floor(x)) + translator of the nograd_functions list + model/spec/implementation correspondence on programs with independent and sign-dependent bodies + implementation oracle for containers"
 DESIGN_REF = "DESIGN.md 4.14"
-LEVEL_TEXT = "Proved: notrace primitives return plain values and block derivative flow at any nesting depth; fourteen registered members (floor, ceil, trunc, fix, rint, round, around, sign, six comparisons) are on the translated list and have derivative 0 / freeze inside any program away from their jump points; the integer model compared with NumPy computes them at every rational. Exact zeros for independent outputs: model definition tied by correspondence; containers/arrays by implementation oracle."
-LEVEL_NOTE = "Trusted: Coq kernel; stdlib Reals axioms (sig_forall_dec, sig_not_dec, functional_extensionality_dep) for the real-number theorems; model tied by correspondence and by the nograd translator; the other 35 registered nograd functions are checked against NumPy on the implementation only."
+LEVEL_TEXT = "Proved: notrace primitives return plain values and block derivative flow at any nesting depth; twenty-two registered members (floor, ceil, trunc, fix, rint, round, around, sign, six comparisons, logical_not and the seven predicates that are constant on finite reals) are on the translated list and have derivative 0 / freeze inside any program away from their jump points; the integer model compared with NumPy computes them at every rational. Exact zeros for independent outputs: model definition tied by correspondence; containers/arrays by implementation oracle."
+LEVEL_NOTE = "Trusted: Coq kernel; stdlib Reals axioms (sig_forall_dec, sig_not_dec, functional_extensionality_dep) for the real-number theorems; model tied by correspondence and by the nograd translator; the other 27 registered nograd functions are checked against NumPy on the implementation only."
